@@ -243,7 +243,11 @@ def api_job(job):
     # 1. init(): clipping of starting indices, params override
     pover = {cfg["nodes"][0]["name"]: ProbeParams(p=jnp.int32(77))}
     for (ea, sa) in job.get("inits", []):
+        keys_before = sorted(pover)
         gs0 = G.init(jax.random.PRNGKey(job.get("seed", 0)), params=pover, starting_eps=ea, starting_step=sa)
+        # init() is a function of its arguments: the caller's (partial) params dict is not written to (otherwise the defaults drawn in one call
+        # become overrides of the next call with the same dict and another rng)
+        out["checks"].append(dict(kind="init_leaves_params_argument_untouched", args=[ea, sa], expected=keys_before, got=sorted(pover), ok=(sorted(pover) == keys_before)))
         exp_e = min(max(ea, 0), n_eps - 1)
         exp_s = min(max(sa, 0), P - 1)
         got_e, got_s = int(onp.asarray(gs0.eps)), int(onp.asarray(gs0.step))
